@@ -204,6 +204,7 @@ namespace mfuse
         bool doJumpVarIf(bool booleanValue);
 
         template<bool noTop = false> void loadTop(EventSystem& eventSystem, Listener* listener);
+        void loadTopGroup(EventSystem& eventSystem, const ScriptVariable& group);
         template<bool noTop = false> ScriptVariable* storeTop(EventSystem& eventSystem, Listener* listener);
         void loadStoreTop(EventSystem& eventSystem, Listener* listener);
         void storeField(op_name_t fieldName, Listener* listener);
